@@ -1,6 +1,7 @@
 /- The fact values the C16 theorems are proved for (and the oracle runs with). -/
 import EinoV.Model.C16
 import EinoV.Model.C16Keys
+import EinoV.Model.C16Slices
 namespace EinoV.Expected.C16
 def facts : EinoV.C16.Facts :=
   { typeCmpIdentity := true, typeCmpImplements := false, strip := 1, passSubPathIsError := true, nestedCopies := true,
@@ -8,4 +9,6 @@ def facts : EinoV.C16.Facts :=
 /-- both closures of both key wrappers (`WithInputKey`, `WithOutputKey`) pass `opts...` on -/
 def keyFacts : EinoV.C16.KeyFacts :=
   { inKeyFwdInvoke := true, inKeyFwdTransform := true, outKeyFwdInvoke := true, outKeyFwdTransform := true }
+/-- every list of `optMap` grows by `append` from the map's own slot -/
+def sliceFacts : EinoV.C16.SliceFacts := { valsGrowFromMapSlot := true }
 end EinoV.Expected.C16
